@@ -46,7 +46,7 @@ pub(crate) struct ConnectionState {
     connected: bool,
     worker: Option<JoinHandle<()>>,
     poller: Option<Waker>,
-    on_connected: Option<Waker>,
+    on_connected: VecDeque<Waker>,
     on_handshake_data: Option<Waker>,
     datagram_received: VecDeque<Waker>,
     datagrams_unblocked: VecDeque<Waker>,
@@ -65,9 +65,7 @@ impl ConnectionState {
         if let Some(waker) = self.on_handshake_data.take() {
             waker.wake()
         }
-        if let Some(waker) = self.on_connected.take() {
-            waker.wake()
-        }
+        self.on_connected.drain(..).for_each(Waker::wake);
         self.datagram_received.drain(..).for_each(Waker::wake);
         self.datagrams_unblocked.drain(..).for_each(Waker::wake);
         for e in &mut self.stream_opened {
@@ -146,7 +144,7 @@ impl ConnectionInner {
                 error: None,
                 worker: None,
                 poller: None,
-                on_connected: None,
+                on_connected: VecDeque::new(),
                 on_handshake_data: None,
                 datagram_received: VecDeque::new(),
                 datagrams_unblocked: VecDeque::new(),
@@ -255,9 +253,7 @@ impl ConnectionInner {
                     }
                     Connected => {
                         state.connected = true;
-                        if let Some(waker) = state.on_connected.take() {
-                            waker.wake()
-                        }
+                        state.on_connected.drain(..).for_each(Waker::wake);
                         if state.conn.side().is_client() && !state.conn.accepted_0rtt() {
                             // Wake up rejected 0-RTT streams so they can fail immediately with
                             // `ZeroRttRejected` errors.
@@ -510,9 +506,10 @@ impl Future for Connecting {
             return Poll::Ready(Ok(Connection(self.0.clone())));
         }
 
-        match &state.on_connected {
-            Some(waker) if waker.will_wake(cx.waker()) => {}
-            _ => state.on_connected = Some(cx.waker().clone()),
+        // `accepted_0rtt` may be awaited by several tasks at once (and next to
+        // this future): keep every waiter.
+        if !state.on_connected.iter().any(|w| w.will_wake(cx.waker())) {
+            state.on_connected.push_back(cx.waker().clone());
         }
 
         Poll::Pending
@@ -880,9 +877,10 @@ impl Connection {
                 return Poll::Ready(Ok(state.conn.accepted_0rtt()));
             }
 
-            match &state.on_connected {
-                Some(waker) if waker.will_wake(cx.waker()) => {}
-                _ => state.on_connected = Some(cx.waker().clone()),
+            // Several tasks may wait here on clones of the connection: keep
+            // every waiter instead of replacing the previous one.
+            if !state.on_connected.iter().any(|w| w.will_wake(cx.waker())) {
+                state.on_connected.push_back(cx.waker().clone());
             }
 
             Poll::Pending
